@@ -516,6 +516,12 @@ def check_coordinate_dtypes(ctx):
         kinds = [[np.int64, np.int32, np.int16, np.float32, np.float64][int(rng.integers(0, 5))] for _ in range(nsets)]
         if it % 3 == 0:
             kinds = [np.int64] * nsets
+        if it % 4 == 1:
+            # unsigned containers (voxel indices): the same positions shifted to be non-negative
+            ints = [a_ + 40 for a_ in ints]
+            for a_ in ints:
+                a_[:, 1] = 0
+            kinds = [[np.uint8, np.uint16, np.uint32, np.uint64][int(rng.integers(0, 4))] for _ in range(nsets)]
         vs = [float(rng.uniform(1000, 6000)) for _ in range(nsets - 1)]
         for wdt in (np.float64, np.float32, None):      # None: the documented default working precision (float64), not passed
             res = {}
